@@ -403,7 +403,7 @@ func renderProgram(f *ast.File, fset *token.FileSet, p *RunPkg) (string, error) 
 
 	if fw == "" {
 		w("func serve(req wireReq, opt serveOpt) map[string]interface{} { return map[string]interface{}{\"err\": \"no server in this package\"} }\n")
-		return addExtraImports(b.String(), f), nil
+		return addExtraImports(b.String(), f, ""), nil
 	}
 
 	// ctx reader
@@ -431,7 +431,12 @@ func renderProgram(f *ast.File, fset *token.FileSet, p *RunPkg) (string, error) 
 		// a document without operations still generates an (empty) interface
 	}
 	vts := visitTypes(f, fset)
+	var sigText strings.Builder
 	for _, m := range methods {
+		for _, prm := range m.Params {
+			sigText.WriteString(" " + prm.Type + " ")
+		}
+		sigText.WriteString(" " + m.Result + " ")
 		ps := []string{}
 		args := []string{}
 		first := ""
@@ -481,12 +486,12 @@ func renderProgram(f *ast.File, fset *token.FileSet, p *RunPkg) (string, error) 
 		b.WriteString(progStrict)
 	}
 	b.WriteString(progServe[fwFamily(fw, p.Strict)])
-	return addExtraImports(b.String(), f), nil
+	return addExtraImports(b.String(), f, sigText.String()), nil
 }
 
 // addExtraImports imports into prog.go the packages of gen.go that the stub's signatures mention
 // (openapi_types, time, externalRefN, ...).
-func addExtraImports(prog string, f *ast.File) string {
+func addExtraImports(prog string, f *ast.File, sigText string) string {
 	var extra strings.Builder
 	head := prog[:strings.Index(prog, "//EXTRA-IMPORTS")]
 	for _, im := range f.Imports {
@@ -500,7 +505,7 @@ func addExtraImports(prog string, f *ast.File) string {
 		if name == "_" || name == "." || strings.Contains(head, "\""+path+"\"") {
 			continue
 		}
-		if regexp.MustCompile(`[^A-Za-z0-9_.]`+regexp.QuoteMeta(name)+`\.[A-Z]`).MatchString(prog) {
+		if regexp.MustCompile(`[^A-Za-z0-9_.]`+regexp.QuoteMeta(name)+`\.[A-Z]`).MatchString(sigText) {
 			fmt.Fprintf(&extra, "\t%s%q\n", alias, path)
 		}
 	}
